@@ -28,6 +28,13 @@ variable {Pts A S : Type} [Inhabited A]
 structure Hom where
   h : Mat
 
+/-- `x.centre()` / `x.norm()`, by the point set (the model's fits take the point sets: `target.centre() -
+source.centre()` is `translationOf source target`, `target.norm() / source.norm()` is `scaleOf source target`) -/
+structure CentreOf (Pts : Type) where
+  p : Pts
+structure NormOf (Pts : Type) where
+  p : Pts
+
 def genDefault_procrustes_rotation : Bool :=
   true
 
@@ -144,12 +151,12 @@ def genSync_AlignmentRotation (np : Np Pts A) (e : Ext Pts A) (self : Obj Pts A)
   .ok self0
 
 def genSync_AlignmentTranslation (np : Np Pts A) (e : Ext Pts A) (self : Obj Pts A) : Except PyExc (Obj Pts A) :=
-  let translation0 := (e.translationOf self.source self.target)
+  let translation0 := (e.translationOf ((CentreOf.mk self.source)).p ((CentreOf.mk self.target)).p)
   let self0 := self.setH (setLastCol (e.nDims self.source) translation0 self.h)
   .ok self0
 
 def genSync_AlignmentUniformScale (np : Np Pts A) (e : Ext Pts A) (self : Obj Pts A) : Except PyExc (Obj Pts A) :=
-  let newscale0 := (e.scaleOf self.source self.target)
+  let newscale0 := (e.scaleOf ((NormOf.mk self.source)).p ((NormOf.mk self.target)).p)
   let self0 := self.setH (fillDiag (e.nDims self.source) newscale0 self.h)
   let self1 := self0.setH (setCorner (e.nDims self0.source) self0.h)
   .ok self1
@@ -259,12 +266,12 @@ def genInit_AlignmentRotation (e : Ext Pts A) (self : Obj Pts A) (source target 
 
 def genInit_AlignmentTranslation (e : Ext Pts A) (self : Obj Pts A) (source target : Pts) : Except PyExc (Obj Pts A) :=
   (genInit_Alignment e self source target).bind fun self0 =>
-    (genInit_Translation e self0 (e.translationOf source target)).bind fun self1 =>
+    (genInit_Translation e self0 (e.translationOf ((CentreOf.mk source)).p ((CentreOf.mk target)).p)).bind fun self1 =>
       .ok self1
 
 def genInit_AlignmentUniformScale (e : Ext Pts A) (self : Obj Pts A) (source target : Pts) : Except PyExc (Obj Pts A) :=
   (genInit_Alignment e self source target).bind fun self0 =>
-    (genInit_UniformScale e self0 (e.scaleOf source target) (e.nDims source)).bind fun self1 =>
+    (genInit_UniformScale e self0 (e.scaleOf ((NormOf.mk source)).p ((NormOf.mk target)).p) (e.nDims source)).bind fun self1 =>
       .ok self1
 
 def genInit_ThinPlateSplines (np : Np Pts A) (e : Ext Pts A) (self : Obj Pts A) (source target : Pts) (kernel : Option Nat := none) (minsingularval : Rat := ((1 : Rat) / 10000)) : Except PyExc (Obj Pts A) :=
@@ -406,14 +413,14 @@ def genCompose_after (e : Ext Pts A) (self : Obj Pts A) (transform : Hom) : Exce
 def genProcrustesAlignment (pk : ProcK Pts) (nDims : Pts → Nat) (source target : Pts) (rotation : Bool := true) (allowmirror : Bool := false) : Mat :=
   let tgtt0 := (pk.negCentre target)
   let srct0 := (pk.negCentre source)
-  let srcs0 := (pk.scale source target)
+  let srcs0 := (pk.scale source target (nDims source))
   let p0 := (pk.identity (nDims source))
   let p1 := pk.before p0 srct0
   let p0 := pk.before p1 srcs0
   if rotation then
     let alignedsrc0 := ((p0, source) : Mat × Pts)
     let alignedtgt0 := ((tgtt0, target) : Mat × Pts)
-    let r0 := (pk.rotation allowmirror (alignedsrc0).1 (alignedtgt0).1 (alignedsrc0).2 (alignedtgt0).2)
+    let r0 := (pk.rotation (pk.optimalRotation allowmirror (alignedsrc0).1 (alignedtgt0).1 (alignedsrc0).2 (alignedtgt0).2))
     let p1 := pk.before p0 r0
     let p0 := pk.before p1 (pk.pinv tgtt0)
     p0
@@ -461,7 +468,7 @@ def genRecursiveProcrustes (np : Np Pts A) (e : Ext Pts A) (gk : GpaK Pts S) : N
       .ok (self, false)
     else
       let newtgt0 := (gk.meanOf (List.map (fun it0 => let t0 := it0; (genAlignedSource e t0)) self.transforms))
-      let rescale0 := (gk.rescale self.initialTargetScale newtgt0)
+      let rescale0 := (gk.scaleAbout newtgt0 (gk.ratio self.initialTargetScale (gk.norm newtgt0)))
       let newtgt1 := rescale0 newtgt0
       let deltatarget0 := (gk.dist self.target newtgt1)
       if (gk.below deltatarget0) then
